@@ -196,6 +196,25 @@ def run(chk):
                                        detail=f"segment {r} is {'followed' if followed else 'not followed'} by a matching but cliff={val}")
                 chk.configs += 1
 
+    # ---- (a') the flag is part of the identity of a part ----------------------------------------------------------------------------------------
+    # One operator card may ask for a target ON a matching scale (lower nf: the stretch mu0 -> wall is the LAST one, no cliff) and for a target beyond it (the same
+    # stretch is FOLLOWED by the matching, cliff).  They are different operators whenever the schemes of (c), (d) distinguish them, so they must be different
+    # recipes: unequal as keys, and both kept by the deduplication of recipes._create, in whichever order the targets are listed.
+    from eko.io.items import Evolution as _Ev
+    from eko.matchings import Atlas as _Atlas
+    from eko.quantities.heavy_quarks import MatchingScales as _MS
+    fnc = "eko.runner.recipes:_create"
+    chk.under_contract(fnc, "eko.io.items:Evolution")
+    a_, b_ = _Ev(5.0, 10.0, 3, cliff=False), _Ev(5.0, 10.0, 3, cliff=True)
+    chk.ground("C53.cliff_is_part_of_the_recipe_identity", a_ != b_ and len({a_: 1, b_: 2}) == 2, fn="eko.io.items:Evolution", replay=rp,
+               goal="two evolution recipes that differ in the cliff flag only are different keys (comparison and dictionary lookup)")
+    for nf0, wall, beyond in ((3, 10.0, 15.0), (4, 20.0, 25.0), (5, 30.0, 50.0)):
+        atl = _Atlas(_MS([10.0, 20.0, 30.0]), (5.0 if nf0 == 3 else wall - 5.0, nf0))
+        for lab, grid in (("on_wall_then_beyond", [(wall, nf0), (beyond, nf0 + 1)]), ("beyond_then_on_wall", [(beyond, nf0 + 1), (wall, nf0)])):
+            got = recipes._create(grid, atl)
+            flags = sorted(r.cliff for r in got if isinstance(r, _Ev) and r.nf == nf0 and r.target == wall)
+            chk.ground(f"C53.both_variants_of_the_stretch_kept[nf={nf0},{lab}]", flags == [False, True], fn=fnc, replay=rp, detail=f"cliff flags of the stretch ending on the matching scale: {flags}",
+                       goal="the stretch that ends on the matching scale is computed once as the last stretch of the target on the wall and once as the stretch followed by the matching")
     # ---- (b) parts.evolve wiring ----------------------------------------------------------------------------------------------------------
     seen = {}
 
